@@ -1,6 +1,7 @@
+import Gv.Oracle.Det
 import Gv.Oracle.Clean
 import Gv.Oracle.Loop
 /-! oracle of property C12: only the handlers it needs -/
 open Gv Gv.Oracle
 
-def main : IO Unit := runOracle [CleanOps.handle]
+def main : IO Unit := runOracle [CleanOps.handle, DetOps.handle]
